@@ -39,13 +39,15 @@ func label(a Act) string {
 // Replay steps the actions of a walk through real files and listeners,
 // choosing at every Start the specification edge that matches what the real
 // code did.
-func Replay(g *graph.G, walk []int, scratch string, depth int, seed int64, f Force) (*Result, error) {
+func Replay(g *graph.G, walk []int, scratch string, depth int, seed int64, f Force, runner Runner) (*Result, error) {
 	w, err := NewWorld(scratch, depth, seed)
 	if err != nil {
 		return nil, err
 	}
 	defer w.Close()
+	defer runner.Stop(w)
 	res := &Result{}
+	curFP := ""
 	cur := g.Init
 	div := func(step int, prop, aspect, format string, a ...any) {
 		res.Divs = append(res.Divs, Div{Prop: prop, Aspect: aspect, Desc: fmt.Sprintf(format, a...), Step: step})
@@ -76,7 +78,7 @@ func Replay(g *graph.G, walk []int, scratch string, depth int, seed int64, f For
 		switch act.N {
 		case "Start":
 			res.Starts++
-			sr := w.Start(act.C)
+			sr := runner.Start(w, act.C)
 			next := -1
 			for _, oi := range cands {
 				var a2 Act
@@ -125,12 +127,45 @@ func Replay(g *graph.G, walk []int, scratch string, depth int, seed int64, f For
 					div(i, "C08", "owner-only", "%s", sr.ModeProblem)
 				}
 			}
-			if sr.Outcome != "failed" && sr.Advertised != sr.FP {
-				div(i, "C05", "advertised-fingerprint", "Listener.Fingerprint %q is not the SPKI hash %q of the certificate presented", sr.Advertised, sr.FP)
+			if sr.Outcome != "failed" {
+				curFP = sr.FP
+				if len(sr.Pins) == 0 {
+					div(i, "C05", "nothing-advertised", "the run shows no fingerprint at start-up")
+				}
+				for _, p := range sr.Pins {
+					if p.FP != sr.FP {
+						div(i, "C05", "advertised-fingerprint:"+p.Where, "%s shows pin %q, but the certificate presented in handshakes has SPKI hash %q", p.Where, p.FP, sr.FP)
+					}
+				}
+				if sr.AddrProblem != "" {
+					div(i, "C05", "advertised-address", "%s", sr.AddrProblem)
+				}
+				if sr.CurlProblem != "" {
+					div(i, "C05", "curl-pinning", "%s", sr.CurlProblem)
+				}
 			}
 			cur = g.Edges[next].To
 		case "Stop":
-			w.Stop()
+			if p := runner.Stop(w); p != "" {
+				div(i, "C20", "stop", "%s", p)
+			}
+			cur = g.Edges[cands[0]].To
+		case "Advert":
+			pins, fp, err := runner.Advert(w, act.Cl)
+			if err != nil {
+				return res, err
+			}
+			if fp != curFP {
+				div(i, "C08", "stable-key", "the key served changed during a run")
+			}
+			if len(pins) == 0 {
+				div(i, "C05", "nothing-advertised", "%s shows no fingerprint", act.Cl)
+			}
+			for _, p := range pins {
+				if p.FP != fp {
+					div(i, "C05", "advertised-fingerprint:"+p.Where, "%s shows pin %q, but the certificate presented in handshakes has SPKI hash %q", p.Where, p.FP, fp)
+				}
+			}
 			cur = g.Edges[cands[0]].To
 		case "Crash":
 			b, fp, err := w.FreshFile()
